@@ -323,7 +323,7 @@ def build_server(timeout=3600):
 
 def known_findings():
     """parse known_findings.txt: lines `finding: property=Cnn class=<name> ...` / `fixed: property=Cnn <commit> ...`"""
-    p = os.path.join(VERIF, "known_findings.txt")
+    p = os.environ.get("VERIF_KNOWN_FINDINGS") or os.path.join(VERIF, "known_findings.txt")   # (override: mutation tests)
     res = []
     if os.path.exists(p):
         for l in open(p):
